@@ -2,6 +2,7 @@ package c12
 
 import (
 	"encoding/json"
+	"errors"
 	"fmt"
 	"os"
 	"runtime"
@@ -20,7 +21,7 @@ const (
 	interval = time.Millisecond
 )
 
-var workloads = []string{"in-order", "loss", "duplicates", "reordering", "with-feedback", "loss-with-feedback", "retransmissions-lagging-ccfb", "many-streams", "stream-churn"}
+var workloads = []string{"in-order", "loss", "duplicates", "reordering", "with-feedback", "loss-with-feedback", "retransmissions-lagging-ccfb", "many-streams", "stream-churn", "failing-transport"}
 
 const manyStreams = 120 // further local and remote streams of the "many-streams" workload: memory may depend on their number, not on the packets
 
@@ -33,18 +34,31 @@ type Pair struct {
 	Seed     uint64 `json:"seed"`
 }
 
-type countingRTP struct{ n atomic.Int64 }
+// countingRTP / countingRTCP are the transports; with failEvery > 0 every failEvery-th write is refused (workload "failing-transport").
+type countingRTP struct {
+	n         atomic.Int64
+	failEvery int64
+}
+
+var errTransport = errors.New("injected transport error")
 
 func (c *countingRTP) Write(*rtp.Header, []byte, interceptor.Attributes) (int, error) {
-	c.n.Add(1)
+	if n := c.n.Add(1); c.failEvery > 0 && n%c.failEvery == 0 {
+		return 0, errTransport
+	}
 
 	return 1, nil
 }
 
-type countingRTCP struct{ n atomic.Int64 }
+type countingRTCP struct {
+	n         atomic.Int64
+	failEvery int64
+}
 
 func (c *countingRTCP) Write([]rtcp.Packet, interceptor.Attributes) (int, error) {
-	c.n.Add(1)
+	if n := c.n.Add(1); c.failEvery > 0 && n%c.failEvery == 0 {
+		return 0, errTransport
+	}
 
 	return 1, nil
 }
@@ -95,10 +109,16 @@ func runPair(p Pair) result { //nolint:cyclop,gocognit
 		return res
 	}
 	rtcpSink := &countingRTCP{}
+	if p.Workload == "failing-transport" {
+		rtcpSink.failEvery = 7
+	}
 	ic.BindRTCPWriter(rtcpSink)
 	rtcpSrc := &kit.ByteSource{}
 	rtcpIn := ic.BindRTCPReader(rtcpSrc)
 	rtpSink := &countingRTP{}
+	if p.Workload == "failing-transport" {
+		rtpSink.failEvery = 53 // co-prime with the batch and burst sizes in use, so that over time every position of a batch is hit
+	}
 	ccfb := p.Workload == "retransmissions-lagging-ccfb" // no transport-cc negotiated: RFC 8888 feedback keyed by (SSRC, sequence number), no RTX
 	tw := twccID
 	if ccfb {
@@ -207,7 +227,7 @@ func runPair(p Pair) result { //nolint:cyclop,gocognit
 		rtcpSrc.Push(raw)
 		_, _, _ = rtcpIn.Read(buf, nil)
 	}
-	withFeedback := p.Workload == "with-feedback" || p.Workload == "loss-with-feedback" || ccfb
+	withFeedback := p.Workload == "with-feedback" || p.Workload == "loss-with-feedback" || p.Workload == "failing-transport" || ccfb
 	lossy := p.Workload == "loss" || p.Workload == "loss-with-feedback"
 	sentTotal := int64(0)
 	churnSSRC := uint32(0x100000)
@@ -390,7 +410,7 @@ func TestMemoryBounded(t *testing.T) {
 	phases, per := kit.EnvInt("VERIF_C12_PHASES", 4), kit.EnvInt("VERIF_C12_PER_PHASE", 15000)
 	shard, nshards := kit.Shard()
 	rec := kit.NewRecorder("C12", "memory-phases",
-		fmt.Sprintf("every interceptor x workload {in-order, 5%% loss, 5%% duplicates, reordering, with periodic feedback, loss with feedback, retransmissions with lagging RFC 8888 feedback, 121 streams each way, 50 short-lived stream pairs bound, used and unbound every 1000 packets (thorough: 100 every 5000)}: %d equal phases of %d packets each way; heap and object "+
+		fmt.Sprintf("every interceptor x workload {in-order, 5%% loss, 5%% duplicates, reordering, with periodic feedback, loss with feedback, retransmissions with lagging RFC 8888 feedback, 121 streams each way, 50 short-lived stream pairs bound, used and unbound every 1000 packets (thorough: 100 every 5000), RTP / RTCP transports that refuse every 53rd / 7th write}: %d equal phases of %d packets each way; heap and object "+
 			"count after two forced GCs at each phase boundary; growth over the last phases must stay below max(32 KiB, 0.5%%) / 200 objects, and the heap must return to the baseline after Unbind/Close; "+
 			"non-trivial = the interceptor keeps per-packet state; distinct by (interceptor, workload, seed)", phases, per))
 	idx := 0
